@@ -15,7 +15,15 @@ IMPORTS = ["SodiumModel.Properties.C08"] if THEOREMS else ["SodiumModel.Spec.Arg
 THEOREMS = THEOREMS + vcore.theorems_in("SodiumModel/Properties/C08Core.lean", ['fBlaMka_spec', 'fBlaMka_nat', 'G_spec', 'BLAKE2_ROUND_NOMSG_spec', 'round_at_spec', 'fill_block_indices', 'fill_block_spec', 'fill_block_with_xor_spec', 'xor_block_spec', 'index_alpha_spec', 'index_alpha_bounds', 'generate_addresses_spec', 'addressing_schedule', 'fill_segment_spec', 'fill_segment_in_bounds', 'fill_memory_blocks_spec', 'rel_getBlock', 'blake2b_long_spec', 'load_store_block_spec', 'initial_hash_spec', 'fill_first_blocks_spec', 'finalize_spec', 'blake2b_returns_outlen', 'argon2_ctx_core_spec', 'argon2_hash_ref_model_spec', 'argon2_hash_spec', 'crypto_pwhash_spec', 'crypto_pwhash_str_spec', 'crypto_pwhash_str_verify_spec', 'crypto_pwhash_is_rfc9106', 'driver_prims_eq'], "Sodium.C08Core")
 # the reference scrypt code (nosse smix / blockmix / salsa20_8 / integerify, PBKDF2-SHA-256): components = RFC 7914 / RFC 8018 (the le32 / p-loop glue of escrypt_kdf_nosse is tied by the correspondence)
 THEOREMS = THEOREMS + vcore.theorems_in("SodiumModel/Properties/C08Scrypt.lean", ['salsa20_8_eq_spec', 'blockmix_salsa8_eq_spec', 'blockmix_salsa8_scratch', 'integerify_eq_spec', 'smix_loops_eq_spec', 'pbkdf2_eq_spec', 'pbkdf2_sha256_eq_spec', 'kdf_nosse_rejects', 'kdf_guards', 'power_of_two_test'], "Sodium.C08Scrypt")
-IMPORTS = IMPORTS + ["SodiumModel.Properties.C08Core", "SodiumModel.Properties.C08Scrypt"]
+IMPORTS = IMPORTS + ["SodiumModel.Properties.C08Core", "SodiumModel.Properties.C08Scrypt", "SodiumModel.Properties.C08Simd"]
+# the AVX2 / SSSE3 / AVX-512F block-filling code = the reference code = RFC 9106, up to crypto_pwhash, for every input
+THEOREMS = THEOREMS + vcore.theorems_in("SodiumModel/Properties/C08Simd.lean", ['words256_get', 'words128_get', 'words512_get', 'words_regs', 'regs_words', 'memcpy_state_eq', 'avx2_fBlaMka', 'ssse3_fBlaMka', 'avx512f_muladd', 'avx2_rotations', 'ssse3_rotations', 'avx512f_rotations', 'avx2_G', 'avx2_DIAGONALIZE_1', 'avx2_DIAGONALIZE_2', 'avx2_BLAKE2_ROUND_1', 'avx2_BLAKE2_ROUND_2', 'ssse3_BLAKE2_ROUND', 'avx512f_BLAKE2_ROUND_words', 'reference_loops', 'avx2_loop_steps', 'ssse3_loop_steps', 'avx512f_loop_steps', 'blake2_rounds_eq_ref', 'avx2_fill_block', 'avx2_fill_block_with_xor', 'ssse3_fill_block', 'ssse3_fill_block_with_xor', 'avx512f_fill_block', 'avx512f_fill_block_with_xor', 'avx2_fill_block_is_rfc9106', 'generate_addresses_eq_ref', 'fill_segment_avx2_eq_ref', 'fill_segment_ssse3_eq_ref', 'fill_segment_avx512f_eq_ref', 'fill_segment_avx2_spec', 'segOK_all', 'argon2_ctx_core_simd_spec', 'argon2_hash_model_simd_spec', 'argon2_hash_simd_eq_ref', 'crypto_pwhash_simd_eq_ref', 'crypto_pwhash_str_simd_eq_ref', 'crypto_pwhash_str_verify_simd_eq_ref', 'crypto_pwhash_simd_is_rfc9106', 'crypto_pwhash_avx2_is_rfc9106', 'crypto_pwhash_ssse3_is_rfc9106', 'crypto_pwhash_avx512f_is_rfc9106', 'driver_primsAvx2_eq', 'driver_prims_agree'], "Sodium.C08Simd")
+
+
+def tie_b(ctx):
+    vcore.simd_check_script(ctx, "argon2")
+    return []
+
 FINGERPRINTS = "C08"     # Tie B: pinned source text of the transcribed Argon2 / scrypt reference code (tools/fingerprint.py)
 RULE = ("raw hashing for both Argon2 types through the generic and the specific entry points: output lengths 16..1000, password lengths 0..300, every memory limit 8192..16384 step 512 (block rounding), "
         "ops 1..4, all limit boundaries and their precedence (EINVAL / EFBIG); hash strings produced under a scripted salt source; verify and needs_rehash on produced strings and on every mutation class: "
@@ -23,7 +31,7 @@ RULE = ("raw hashing for both Argon2 types through the generic and the specific 
         "Base64 fields with padding, wrong alphabet, whitespace, NUL, bytes >= 0x80, salt / tag length limits, the 127 / 128-byte needs_rehash edge, wrong type prefix through each verifier; scrypt: "
         "raw / ll (RFC 7914 vectors, N r p combinations), $7$ strings produced and mutated the same way; each on the AVX-512 / AVX2 / SSSE3 / reference Argon2 fill code and the SSE2 / portable scrypt code")
 ASSUMPTIONS = ["the Argon2 and scrypt cores are parameters of the string-layer model (`Prims`); the driver instantiates them with the C-structured models of the REFERENCE cores, proved equal to RFC 9106 (C08Core, end to end) "
-               "and, component-wise, to RFC 7914 / RFC 8018 (C08Scrypt); the AVX-512 / AVX2 / SSSE3 Argon2 fill code and the SSE2 scrypt code are compared with these models through the correspondence, per backend",
+               "and, component-wise, to RFC 7914 / RFC 8018 (C08Scrypt); the AVX-512F / AVX2 / SSSE3 Argon2 fill code is modelled and proved equal to the reference code (C08Simd) over an intrinsic semantics validated against the CPU each run; the SSE2 scrypt code is compared with the reference model through the correspondence",
                "allocation failure paths (memlimit up to 4 TiB, huge scrypt r*N) are under C20, not modelled here; outlen > 2^32-1 and passwords > 4 GiB are proved in limits_spec but cannot be driven through the harness",
                "scrypt $7$ strings: round trip shown on instances, not proved in general; scrypt clamps out-of-range opslimit / memlimit instead of rejecting them (scrypt_limits_spec states what the code does)"]
 
